@@ -127,7 +127,11 @@ class _P:
                 return _P(inner).parse()
         if [tok_text(t) for t in run] == ["num=1", "op:=", "num=1"]:
             return "tt"
-        return ("atom", " ".join(tok_text(t) for t in run))
+        words = [tok_text(t) for t in run]
+        text = " ".join(words)
+        if text not in _PRETTY:
+            _PRETTY[text] = pretty_atom(text, words)
+        return ("atom", text)
 
 
 def skeleton(toks):
@@ -185,10 +189,15 @@ def ev(t, a):
     return any(ev(x, a) for x in t[1])
 
 
-def pretty_atom(text):
+_PRETTY = {}
+
+
+def pretty_atom(text, words=None):
     """token text of an atom -> something that reads like the SQL it came from (display only)"""
+    if words is None and text in _PRETTY:
+        return _PRETTY[text]
     out = []
-    for w in text.split(" "):
+    for w in (words if words is not None else text.split(" ")):
         k, _, v = w.partition("=") if w.startswith(("str=", "num=", "estr=", "dstr=")) else (w, "", "")
         if k == "str":
             out.append("'" + v.replace("'", "''") + "'")
